@@ -177,9 +177,15 @@ func (c *MemoryCache[MetadataT]) cacheInternal(key CacheKey, data io.Reader, exp
 	}
 
 	c.mu.Lock()
+	old, replaced := c.entries[key]
 	c.entries[key] = internalEntry
 	c.mu.Unlock()
 
+	if replaced {
+		// Overwriting an existing key must not count the entry (or its bytes) twice.
+		decrementCacheEntries()
+		decrementCacheSize(&c.byteSize, old.meta.Size)
+	}
 	incrementCacheEntries()
 	addCacheSize(&c.byteSize, int64(count))
 
